@@ -4,7 +4,7 @@
 # usage: tools/run_seeded.sh [name ...]      (default: all)   Updates seeded/RESULTS.tsv rows of the mutants run:
 #   name, check, exit code, #VIOLATION lines, #reproduced natively, #UNDECIDED
 cd "$(dirname "$0")/.."
-out=seeded/RESULTS.tsv
+out=${SEEDED_OUT:-seeded/RESULTS.tsv}
 [ -f $out ] || echo -e "mutant\tcheck\texit\tviolations\treproduced_natively\tundecided" > $out
 names="$@"; [ -z "$names" ] && names=$(ls -d seeded/C*_*/ | xargs -n1 basename)
 for n in $names; do
